@@ -217,3 +217,14 @@ func claimNodeTx(member *candID, nodeKey *keyPair, pver byte) interfaces.Transac
 	p.CRCouncilCommitteeSignature = member.sign(buf.Bytes())
 	return newTx(common2.TxVersion09, common2.CRCouncilMemberClaimNode, pver, p, nil, nil, progOf(member.keyPair), 0)
 }
+
+// votingTx is the DPoS-v2-era vote: a Voting payload signed by the owner of a
+// stake address; the fee comes from one of the voter's plain outputs.
+func votingTx(k *keyPair, contents []payload.VotesContent, feeIn *utxoEnt, fee common.Fixed64) interfaces.Transaction {
+	var outs []*common2.Output
+	if ch := feeIn.out.Value - fee; ch > 0 {
+		outs = append(outs, plainOut(k.addr, ch))
+	}
+	return newTx(common2.TxVersion09, common2.Voting, payload.VoteVersion, &payload.Voting{Contents: contents},
+		[]*common2.Input{inputOf(feeIn)}, outs, progOf(k), 0)
+}
